@@ -385,4 +385,68 @@ def serverHandshake (req : List UInt8) : List UInt8 :=
 def serverResponse (key : List UInt8) (hasProtocol : Bool) : List UInt8 :=
   responseHead ++ acceptKey key ++ [13, 10] ++ (if hasProtocol then responseProtocol else []) ++ [13, 10]
 
+/-! ## client handshake (`WebSocket::connect`) -/
+
+/-- `(byte)_random(255)`: `Random::operator()(int m)` is `(int)(double(m + 1) * 2^-53 * (getLong() >> 11))`; with
+    `m = 255` the product is `(getLong() >> 11) * 2^-45` exactly (a 53-bit integer scaled by a power of two), so the
+    truncation to `int` is `getLong() >> 56` -/
+def Rng.keyByte (r : Rng) : UInt8 × Rng :=
+  let (x, r') := r.getLong
+  ((x >>> 56).toUInt8, r')
+
+/-- `for (i = 0; i < 16; i++) key[i] = (byte)_random(255);` -/
+def clientNonce : Nat → Rng → List UInt8 × Rng
+  | 0, r => ([], r)
+  | n + 1, r =>
+    let (b, r') := r.keyByte
+    let (t, r'') := clientNonce n r'
+    (b :: t, r'')
+
+/-- `key64 = encodeBase64(key, 16)` -/
+def clientKey (r : Rng) : List UInt8 × Rng :=
+  let (k, r') := clientNonce nonceLen r
+  (Codec.encodeBase64 k, r')
+
+/-- the request `connect` writes: the format of the source (`Gen.Ws.req*`, regenerated) filled with
+    `url.path`, `url.host`, `url.port` (decimal) and the key -/
+def clientRequest (path host port key64 : List UInt8) : List UInt8 :=
+  reqGet ++ path ++ reqHost ++ host ++ reqColon ++ port ++ reqKey ++ key64 ++ reqTail
+
+/-- one header line as `connect` reads it: like the server's, but the name is kept as written -/
+def headerFieldRaw (line : List UInt8) : Option (List UInt8 × List UInt8) :=
+  let l := trimB line
+  let name := l.takeWhile (· != 58)
+  if name.length = l.length then none            -- no colon
+  else some (name, trimB (l.drop (name.length + 1)))
+
+/-- the header loop of `connect`: `while (line = readLine(), line != "\r")`; `none` = a line without a colon
+    (the end of the stream reads as an empty line): `close(); return false` -/
+def readHeadersRaw : Nat → List UInt8 → Headers → Option Headers
+  | 0, _, _ => none
+  | fuel + 1, inp, h =>
+    let (line, rest) := readLine inp
+    if line == [13] then some h
+    else match headerFieldRaw line with
+      | none => none
+      | some (k, v) => readHeadersRaw fuel rest (setHeader h k v)
+
+def str101 : List UInt8 := [49, 48, 49]
+
+/-- what `connect` returns for the bytes `resp` the peer answers (then end of stream).  The status line needs two
+    spaces and the status `101`; then `Upgrade: websocket` and `Connection` listing `Upgrade` (names exactly so).
+    `Sec-WebSocket-Accept` is not looked at (outside_findings C11-r3-2b). -/
+def clientAccepts (resp : List UInt8) : Bool :=
+  let (head, rest) := readLine resp
+  let afterSp := (head.dropWhile (· != 32)).drop 1
+  if (head.takeWhile (· != 32)).length = head.length then false
+  else if (afterSp.takeWhile (· != 32)).length = afterSp.length then false
+  else if afterSp.takeWhile (· != 32) != str101 then false
+  else match readHeadersRaw (resp.length + 2) rest [] with
+    | none => false
+    | some h => getHeader h strUpgrade == strWebsocket && (splitCommaSp [] (getHeader h strConnection)).contains strUpgrade
+
+/-- `connect` against a peer that answers `resp`: the request written and the result -/
+def clientConnect (rng : Rng) (path host port resp : List UInt8) : List UInt8 × Bool :=
+  (clientRequest path host port (clientKey rng).1, clientAccepts resp)
+
 end AslModel.WebSocket
